@@ -107,25 +107,13 @@ Proof.
   specialize (H o Ho). cbv beta in H. rewrite forallb_forall in H. exact (H f Hf).
 Qed.
 
-(* the domain is what it says: every value of the options record *)
-Lemma all_opts_complete o : In o all_opts.
-Proof.
-  assert (B : forall b, In b bools) by (intros []; simpl; tauto).
-  destruct o as [c u g t p d]. unfold all_opts.
-  apply in_flat_map. exists c. split; [apply B|].
-  apply in_flat_map. exists u. split; [apply B|].
-  apply in_flat_map. exists g. split; [apply B|].
-  apply in_flat_map. exists t. split; [destruct t; simpl; tauto|].
-  apply in_flat_map. exists p. split; [apply B|].
-  apply (in_map (fun d0 => Opts c u g t p d0) bools d). apply B.
-Qed.
-
 (* ---------------- the boolean checkers ---------------- *)
 Definition is_tls_on (o : opts) : bool := match o_tls o with TlsOn => true | _ => false end.
 
-(* bind and key loading precede every privilege step; keys precede the bind *)
+(* bind, listen and key loading precede every privilege step; keys precede the bind *)
 Definition chk_bind (o : opts) (_ : option (nat * xcls)) (out : outcome) : bool :=
   precedes is_bind is_priv false (out_trace out) &&
+  precedes is_listen is_priv false (out_trace out) &&
   (if is_tls_on o then precedes is_loadkeys is_priv false (out_trace out) &&
                        precedes is_loadkeys is_bind false (out_trace out) else true).
 
@@ -135,19 +123,23 @@ Definition chk_order (_ : opts) (_ : option (nat * xcls)) (out : outcome) : bool
 
 Definition E_chroot : effect := Eff (lit "os.chroot") [ROOT].
 Definition E_setgroups : effect := Eff (lit "os.setgroups") [lit "()"].
-Definition E_setregid : effect := Eff (lit "os.setregid") [GIDV; GIDV].
-Definition E_setreuid : effect := Eff (lit "os.setreuid") [UIDV; UIDV].
+Definition E_setregid (o : opts) : effect := Eff (lit "os.setregid") [gidv o; gidv o].
+Definition E_setreuid (o : opts) : effect := Eff (lit "os.setreuid") [uidv o; uidv o].
 
+(* an unfailed start-up: with a value that ConfigParser.getboolean rejects it does
+   not get as far as serving nor as far as any privilege step; otherwise it reaches
+   Running with exactly the configured steps *)
 Definition chk_presence (o : opts) (f : option (nat * xcls)) (out : outcome) : bool :=
   match f with
   | Some _ => true
   | None =>
       let tr := out_trace out in
+      if o_bad o then negb (is_running out) && negb (existsb is_priv tr) else
       is_running out &&
       Bool.eqb (has is_chroot tr) (o_chroot o) && Bool.eqb (mem_eff E_chroot tr) (o_chroot o) &&
       Bool.eqb (has is_setgroups tr) (o_uid o || o_gid o) && Bool.eqb (mem_eff E_setgroups tr) (o_uid o || o_gid o) &&
-      Bool.eqb (has is_setregid tr) (o_gid o) && Bool.eqb (mem_eff E_setregid tr) (o_gid o) &&
-      Bool.eqb (has is_setreuid tr) (o_uid o) && Bool.eqb (mem_eff E_setreuid tr) (o_uid o)
+      Bool.eqb (has is_setregid tr) (o_gid o) && Bool.eqb (mem_eff (E_setregid o) tr) (o_gid o) &&
+      Bool.eqb (has is_setreuid tr) (o_uid o) && Bool.eqb (mem_eff (E_setreuid o) tr) (o_uid o)
   end.
 
 Definition chk_chroot (_ : outcome) (_ : opts) (_ : option (nat * xcls)) (out : outcome) : bool :=
@@ -156,13 +148,18 @@ Definition chk_chroot (_ : outcome) (_ : opts) (_ : option (nat * xcls)) (out : 
 Definition nth_call (k : nat) (unfailed : outcome) : effect :=
   nth k (calls_of (out_trace unfailed)) (Eff [] []).
 
+(* after a failed call nothing but the clean-up of the half-built server (closing
+   its socket) is done *)
+Definition is_cleanup (e : effect) : bool := is_name "socket.close" e.
+
 Definition chk_abort_with (unfailed : outcome) (f : option (nat * xcls)) (out : outcome) : bool :=
   match f with
   | None => true
   | Some (k, _) =>
       if mem_str (ename (nth_call k unfailed)) best_effort then true
       else outcome_aborted_at k out &&
-           list_eqb eff_eqb (calls_of (out_trace out)) (firstn k (calls_of (out_trace unfailed)))
+           list_eqb eff_eqb (firstn k (calls_of (out_trace out))) (firstn k (calls_of (out_trace unfailed))) &&
+           forallb is_cleanup (skipn k (calls_of (out_trace out)))
   end.
 Definition not_best_effort (unfailed : outcome) (f : option (nat * xcls)) : bool :=
   match f with
@@ -209,28 +206,35 @@ Lemma all_at_sec o f : In o sec_opts -> In f (all_failures_sec prog o) ->
   not_best_effort (run_security prog o None) f = true.
 Proof. intros Ho Hf. exact (chk_all_sec_parts _ o f _ (dom_ok_sec_spec _ _ all_dom_sec o Ho f Hf)). Qed.
 
-(* ---------------- bind and keys first ---------------- *)
+(* ---------------- bind, listen and keys first ---------------- *)
 Lemma bind_of_chk o f out : chk_bind o f out = true ->
   forall pre e post, out_trace out = pre ++ e :: post ->
-    (is_priv e = true -> existsb is_bind pre = true /\ (o_tls o = TlsOn -> existsb is_loadkeys pre = true)) /\
+    (is_priv e = true -> existsb is_bind pre = true /\ existsb is_listen pre = true /\
+                         (o_tls o = TlsOn -> existsb is_loadkeys pre = true)) /\
     (is_bind e = true -> o_tls o = TlsOn -> existsb is_loadkeys pre = true).
 Proof.
   intros H pre e post E. unfold chk_bind in H.
-  apply andb_true_iff in H as [H1 H2]. split.
-  - intros Q. split.
+  apply andb_true_iff in H as [H H2]. apply andb_true_iff in H as [H1 H1'].
+  assert (K : o_tls o = TlsOn -> precedes is_loadkeys is_priv false (out_trace out) = true /\
+                                 precedes is_loadkeys is_bind false (out_trace out) = true).
+  { intros T. unfold is_tls_on in H2. rewrite T in H2. now apply andb_true_iff in H2. }
+  split.
+  - intros Q. split; [|split].
     + destruct (precedes_spec _ _ _ _ H1 pre e post E Q) as [X|X]; [discriminate | exact X].
-    + intros T. unfold is_tls_on in H2. rewrite T in H2. apply andb_true_iff in H2 as [H2 _].
-      destruct (precedes_spec _ _ _ _ H2 pre e post E Q) as [X|X]; [discriminate | exact X].
-  - intros Q T. unfold is_tls_on in H2. rewrite T in H2. apply andb_true_iff in H2 as [_ H2].
-    destruct (precedes_spec _ _ _ _ H2 pre e post E Q) as [X|X]; [discriminate | exact X].
+    + destruct (precedes_spec _ _ _ _ H1' pre e post E Q) as [X|X]; [discriminate | exact X].
+    + intros T. destruct (K T) as [K1 _].
+      destruct (precedes_spec _ _ _ _ K1 pre e post E Q) as [X|X]; [discriminate | exact X].
+  - intros Q T. destruct (K T) as [_ K2].
+    destruct (precedes_spec _ _ _ _ K2 pre e post E Q) as [X|X]; [discriminate | exact X].
 Qed.
 
 Lemma bind_keys_first :
-  forall o f, In f (all_failures prog o) ->
+  forall o, In o all_opts -> forall f, In f (all_failures prog o) ->
   forall pre e post, out_trace (run_initialize prog o f) = pre ++ e :: post ->
-    (is_priv e = true -> existsb is_bind pre = true /\ (o_tls o = TlsOn -> existsb is_loadkeys pre = true)) /\
+    (is_priv e = true -> existsb is_bind pre = true /\ existsb is_listen pre = true /\
+                         (o_tls o = TlsOn -> existsb is_loadkeys pre = true)) /\
     (is_bind e = true -> o_tls o = TlsOn -> existsb is_loadkeys pre = true).
-Proof. intros o f Hf. exact (bind_of_chk o f _ (proj1 (all_at o f (all_opts_complete o) Hf))). Qed.
+Proof. intros o Ho f Hf. exact (bind_of_chk o f _ (proj1 (all_at o f Ho Hf))). Qed.
 
 (* ---------------- order ---------------- *)
 Lemma order_of_chk o f out : chk_order o f out = true ->
@@ -246,12 +250,12 @@ Proof.
 Qed.
 
 Lemma order :
-  forall o f, In f (all_failures prog o) ->
+  forall o, In o all_opts -> forall f, In f (all_failures prog o) ->
   StronglySorted N.lt (ranks (out_trace (run_initialize prog o f))) /\
   (forall e, In e (out_trace (run_initialize prog o f)) -> is_idchange e = true ->
      is_setgroups e = true \/ is_setregid e = true \/ is_setreuid e = true).
 Proof.
-  intros o f Hf. exact (order_of_chk o f _ (proj1 (proj2 (all_at o f (all_opts_complete o) Hf)))).
+  intros o Ho f Hf. exact (order_of_chk o f _ (proj1 (proj2 (all_at o f Ho Hf)))).
 Qed.
 
 Lemma order_sec :
@@ -262,16 +266,16 @@ Lemma order_sec :
 Proof. intros o Ho f Hf. exact (order_of_chk o f _ (proj1 (all_at_sec o f Ho Hf))). Qed.
 
 (* ---------------- which steps are present in a start-up that reaches Running ---------------- *)
-Lemma presence_of_chk o out : chk_presence o None out = true ->
+Lemma presence_of_chk o out : o_bad o = false -> chk_presence o None out = true ->
   exists tr, out = Running tr /\
     has is_chroot tr = o_chroot o /\ has is_setgroups tr = (o_uid o || o_gid o)%bool /\
     has is_setregid tr = o_gid o /\ has is_setreuid tr = o_uid o /\
     (o_chroot o = true -> In E_chroot tr) /\
     ((o_uid o || o_gid o)%bool = true -> In E_setgroups tr) /\
-    (o_gid o = true -> In E_setregid tr) /\ (o_uid o = true -> In E_setreuid tr).
+    (o_gid o = true -> In (E_setregid o) tr) /\ (o_uid o = true -> In (E_setreuid o) tr).
 Proof.
-  intros H.
-  unfold chk_presence in H. destruct out as [tr| | |]; simpl in H; try discriminate.
+  intros B H.
+  unfold chk_presence in H. rewrite B in H. destruct out as [tr| | |]; simpl in H; try discriminate.
   exists tr. split; [reflexivity|].
   repeat (apply andb_true_iff in H as [H ?]).
   repeat match goal with X : Bool.eqb _ _ = true |- _ => apply Bool.eqb_prop in X end.
@@ -283,16 +287,32 @@ Proof.
 Qed.
 
 Lemma presence :
-  forall o,
+  forall o, In o all_opts -> o_bad o = false ->
   exists tr, run_initialize prog o None = Running tr /\
     has is_chroot tr = o_chroot o /\ has is_setgroups tr = (o_uid o || o_gid o)%bool /\
     has is_setregid tr = o_gid o /\ has is_setreuid tr = o_uid o /\
     (o_chroot o = true -> In E_chroot tr) /\
     ((o_uid o || o_gid o)%bool = true -> In E_setgroups tr) /\
-    (o_gid o = true -> In E_setregid tr) /\ (o_uid o = true -> In E_setreuid tr).
+    (o_gid o = true -> In (E_setregid o) tr) /\ (o_uid o = true -> In (E_setreuid o) tr).
 Proof.
-  intros o.
-  exact (presence_of_chk o _ (proj1 (proj2 (proj2 (all_at o None (all_opts_complete o) (or_introl eq_refl)))))).
+  intros o Ho B.
+  exact (presence_of_chk o _ B (proj1 (proj2 (proj2 (all_at o None Ho (or_introl eq_refl)))))).
+Qed.
+
+(* a value that getboolean rejects: no serving, no privilege step *)
+Lemma bad_of_chk o out : o_bad o = true -> chk_presence o None out = true ->
+  is_running out = false /\ existsb is_priv (out_trace out) = false.
+Proof.
+  intros B H. unfold chk_presence in H. rewrite B in H. apply andb_true_iff in H as [H1 H2].
+  split; now apply negb_true_iff.
+Qed.
+
+Lemma bad_boolean_aborts :
+  forall o, In o all_opts -> o_bad o = true ->
+  is_running (run_initialize prog o None) = false /\
+  existsb is_priv (out_trace (run_initialize prog o None)) = false.
+Proof.
+  intros o Ho B. exact (bad_of_chk o _ B (proj1 (proj2 (proj2 (all_at o None Ho (or_introl eq_refl)))))).
 Qed.
 
 (* ---------------- chroot is completed ---------------- *)
@@ -303,50 +323,54 @@ Lemma chroot_of_chk unf o f out : chk_chroot unf o f out = true ->
 Proof. unfold chk_chroot. intros H. exact (chroot_complete_spec _ _ H). Qed.
 
 Lemma chroot_complete_holds :
-  forall o f, In f (all_failures prog o) ->
+  forall o, In o all_opts -> forall f, In f (all_failures prog o) ->
   forall pre e post, out_trace (run_initialize prog o f) = pre ++ e :: post -> is_chroot e = true ->
     is_running (run_initialize prog o f) = true \/ existsb is_idchange post = true ->
     existsb is_setroot (until_idchange post) = true /\ existsb is_chdir_root (until_idchange post) = true.
 Proof.
-  intros o f Hf.
-  exact (chroot_of_chk _ o f _ (dom_ok_spec _ _ chroot_dom o (all_opts_complete o) f Hf)).
+  intros o Ho f Hf.
+  exact (chroot_of_chk _ o f _ (dom_ok_spec _ _ chroot_dom o Ho f Hf)).
 Qed.
 
 (* the pinned code: chroot without chdir *)
-Definition o_chroot_only : opts := Opts true false false TlsAbsent false false.
+Definition o_chroot_only : opts := Opts true false false TlsAbsent false false false false None.
 Lemma chdir_refuted :
   exists o tr, run_initialize prog_pinned o None = Running tr /\
       has is_chroot tr = true /\ has (is_name "os.chdir") tr = false.
 Proof.
   exists o_chroot_only. eexists. split; [vm_compute; reflexivity|]. split; vm_compute; reflexivity.
 Qed.
-Lemma chroot_complete_refuted : dom_ok prog_pinned chk_chroot = false.
-Proof. vm_cast_no_check (@eq_refl bool false). Qed.
 
 (* ---------------- a failure aborts ---------------- *)
 Lemma abort_of_chk unfailed k x out :
   chk_abort_with unfailed (Some (k, x)) out = true ->
   mem_str (ename (nth_call k unfailed)) best_effort = false ->
-  exists tr, out = Abort (Some k) tr /\ calls_of tr = firstn k (calls_of (out_trace unfailed)).
+  exists tr, out = Abort (Some k) tr /\
+             firstn k (calls_of tr) = firstn k (calls_of (out_trace unfailed)) /\
+             forallb is_cleanup (skipn k (calls_of tr)) = true.
 Proof.
-  unfold chk_abort_with. intros H B. rewrite B in H. apply andb_true_iff in H as [H1 H2].
+  unfold chk_abort_with. intros H B. rewrite B in H. apply andb_true_iff in H as [H H3].
+  apply andb_true_iff in H as [H1 H2].
   destruct out as [t|[k'|] t|t|]; simpl in H1; try discriminate.
-  apply Nat.eqb_eq in H1. subst k'. exists t. split; [reflexivity|]. now apply list_eqb_eff.
+  apply Nat.eqb_eq in H1. subst k'. exists t. split; [reflexivity|]. split; [now apply list_eqb_eff | exact H3].
 Qed.
 
 Lemma abort :
-  forall o k x, In (Some (k, x)) (all_failures prog o) ->
+  forall o, In o all_opts -> forall k x, In (Some (k, x)) (all_failures prog o) ->
   mem_str (ename (nth_call k (run_initialize prog o None))) best_effort = false ->
   exists tr, run_initialize prog o (Some (k, x)) = Abort (Some k) tr /\
-             calls_of tr = firstn k (calls_of (out_trace (run_initialize prog o None))).
+             firstn k (calls_of tr) = firstn k (calls_of (out_trace (run_initialize prog o None))) /\
+             forallb is_cleanup (skipn k (calls_of tr)) = true.
 Proof.
-  intros o k x Hf B.
-  exact (abort_of_chk _ k x _ (proj2 (proj2 (proj2 (all_at o (Some (k, x)) (all_opts_complete o) Hf)))) B).
+  intros o Ho k x Hf B.
+  exact (abort_of_chk _ k x _ (proj2 (proj2 (proj2 (all_at o (Some (k, x)) Ho Hf)))) B).
 Qed.
 
 Lemma abort_sec_of_chk unfailed k x out :
   chk_abort_with unfailed (Some (k, x)) out = true -> not_best_effort unfailed (Some (k, x)) = true ->
-  exists tr, out = Abort (Some k) tr /\ calls_of tr = firstn k (calls_of (out_trace unfailed)).
+  exists tr, out = Abort (Some k) tr /\
+             firstn k (calls_of tr) = firstn k (calls_of (out_trace unfailed)) /\
+             forallb is_cleanup (skipn k (calls_of tr)) = true.
 Proof.
   intros H1 H2. apply (abort_of_chk unfailed k x out H1).
   unfold not_best_effort in H2. now apply negb_true_iff in H2.
@@ -355,17 +379,19 @@ Qed.
 Lemma abort_sec :
   forall o, In o sec_opts -> forall k x, In (Some (k, x)) (all_failures_sec prog o) ->
   exists tr, run_security prog o (Some (k, x)) = Abort (Some k) tr /\
-             calls_of tr = firstn k (calls_of (out_trace (run_security prog o None))).
+             firstn k (calls_of tr) = firstn k (calls_of (out_trace (run_security prog o None))) /\
+             forallb is_cleanup (skipn k (calls_of tr)) = true.
 Proof.
   intros o Ho k x Hf.
   exact (abort_sec_of_chk _ k x _ (proj1 (proj2 (all_at_sec o (Some (k, x)) Ho Hf)))
                                   (proj2 (proj2 (all_at_sec o (Some (k, x)) Ho Hf)))).
 Qed.
 
-(* the privileged steps, the bind, the key loading and the account look-ups are never best-effort *)
+(* the privileged steps, the bind, the listen, the key loading and the account look-ups are never
+   best-effort, and the clean-up call is not a privilege step *)
 Lemma best_effort_not_priv e : mem_str (ename e) best_effort = true ->
-  is_priv e = false /\ is_bind e = false /\ is_loadkeys e = false /\ is_name "os.chdir" e = false /\
-  is_name "pwd.getpwnam" e = false /\ is_name "grp.getgrnam" e = false.
+  is_priv e = false /\ is_bind e = false /\ is_listen e = false /\ is_loadkeys e = false /\
+  is_name "os.chdir" e = false /\ is_name "pwd.getpwnam" e = false /\ is_name "grp.getgrnam" e = false.
 Proof.
   intros H. destruct e as [n a]. unfold ename in H. apply mem_str_In in H. unfold best_effort in H. simpl in H.
   destruct H as [H|[H|[]]]; subst n; vm_compute; repeat split; reflexivity.
@@ -378,7 +404,8 @@ Lemma security_alone :
       is_setgroups e = true \/ is_setregid e = true \/ is_setreuid e = true)) /\
   (forall k x, f = Some (k, x) ->
      exists tr, run_security prog o (Some (k, x)) = Abort (Some k) tr /\
-                calls_of tr = firstn k (calls_of (out_trace (run_security prog o None)))).
+                firstn k (calls_of tr) = firstn k (calls_of (out_trace (run_security prog o None))) /\
+                forallb is_cleanup (skipn k (calls_of tr)) = true).
 Proof.
   intros o Ho f Hf. split; [exact (order_sec o Ho f Hf)|].
   intros k x E. subst f. exact (abort_sec o Ho k x Hf).
@@ -395,42 +422,31 @@ Lemma cred_list_inj a b : cred_list a = cred_list b -> a = b.
 Proof. destruct a, b. unfold cred_list. simpl. intros H. inversion H. reflexivity. Qed.
 
 Definition chk_final_out (st : start) (o : opts) (out : outcome) : bool :=
+  o_bad o ||
   match out with
-  | Running tr => list_eqb str_eqb (cred_list (final_cred (start_cred st) tr)) (cred_list (wanted_cred o (start_cred st)))
+  | Running tr => list_eqb str_eqb (cred_list (final_cred (start_cred st o) tr)) (cred_list (wanted_cred o (start_cred st o)))
   | _ => false
   end.
 
 Lemma final_dom :
   forallb (fun o => forallb (fun st => chk_final_out st o (run_initialize_from prog st o None)) all_starts) all_opts = true.
 Proof. vm_cast_no_check (@eq_refl bool true). Qed.
-Lemma final_dom_sec :
-  forallb (fun o => forallb (fun st => chk_final_out st o (run_security_from prog st o None)) all_starts) sec_opts = true.
-Proof. vm_cast_no_check (@eq_refl bool true). Qed.
 
-Lemma final_of_chk st o out : chk_final_out st o out = true ->
-  exists tr, out = Running tr /\ final_cred (start_cred st) tr = wanted_cred o (start_cred st).
+Lemma final_of_chk st o out : o_bad o = false -> chk_final_out st o out = true ->
+  exists tr, out = Running tr /\ final_cred (start_cred st o) tr = wanted_cred o (start_cred st o).
 Proof.
-  unfold chk_final_out. destruct out as [tr| | |]; try discriminate. intros H.
+  unfold chk_final_out. intros B. rewrite B. simpl. destruct out as [tr| | |]; try discriminate. intros H.
   exists tr. split; [reflexivity|]. apply cred_list_inj. now apply str_list_eqb_eq.
 Qed.
 
 Lemma all_starts_complete st : In st all_starts.
 Proof. destruct st; simpl; tauto. Qed.
 
-Lemma final_credentials : forall o st,
+Lemma final_credentials : forall o, In o all_opts -> o_bad o = false -> forall st,
   exists tr, run_initialize_from prog st o None = Running tr /\
-             final_cred (start_cred st) tr = wanted_cred o (start_cred st).
+             final_cred (start_cred st o) tr = wanted_cred o (start_cred st o).
 Proof.
-  intros o st. apply final_of_chk.
-  pose proof final_dom as H. rewrite forallb_forall in H. specialize (H o (all_opts_complete o)).
-  cbv beta in H. rewrite forallb_forall in H. exact (H st (all_starts_complete st)).
-Qed.
-
-Lemma final_credentials_sec : forall o, In o sec_opts -> forall st,
-  exists tr, run_security_from prog st o None = Running tr /\
-             final_cred (start_cred st) tr = wanted_cred o (start_cred st).
-Proof.
-  intros o Ho st. apply final_of_chk.
-  pose proof final_dom_sec as H. rewrite forallb_forall in H. specialize (H o Ho).
+  intros o Ho B st. apply (final_of_chk st o _ B).
+  pose proof final_dom as H. rewrite forallb_forall in H. specialize (H o Ho).
   cbv beta in H. rewrite forallb_forall in H. exact (H st (all_starts_complete st)).
 Qed.
